@@ -280,6 +280,13 @@ Definition m_slice_hi (offset size : Z) : Z := offset + size.
 Definition m_td_shape : list String.string :=
   ["zip(names, offsets, sizes) -> (name, offset, size)"; "go.get_offset(names)"; "go.get_size(names)"]%string.
 Definition m_ec_shape : list String.string := ["self._genome_context.global_offset.get_offset([chromosome])[0]"]%string.
+(* GenomicArrayGlobal.__array_function__: every positional and keyword argument after the array is forwarded unchanged to
+   np.histogram on the run-length array; np.sum forwards the arguments after the array to .sum() *)
+Definition m_af_shape : list String.string :=
+  ["[i._global_track if isinstance(i, GenomicArrayGlobal) else i for i in args]";
+   "func == np.histogram -> np.histogram(*args, **kwargs)";
+   "func == np.sum -> self.sum(*args[1:], **kwargs)";
+   "-> NotImplemented"]%string.
 Definition m_gd_shape : list String.string := ["go.get_offset(names)"; "zip(names, starts, stops) -> (name, start, stop)"]%string.
 (* global_offset.py: start_ends_from_intervals *)
 Definition m_go_start_bad (start size : Z) : bool := start >=? size.
